@@ -34,6 +34,8 @@ Fails(e) ==
     [] e.op = "pair"      -> HoelderFails(e.x1, e.x2, e.y1, e.y2, e.lo, e.up, e.m)
     [] e.op = "adjacent"  -> AdjacentFails(e.y1, e.y2, e.lo, e.up, e.m)
     [] e.op = "nest"      -> NestFails(e.yc, e.yf, e.lo, e.up, e.m)
+    [] e.op = "nonfinite" -> {"NonFinite"}        \* the query returned inf / nan
+    [] e.op = "raises"    -> {"QueryRaises"}      \* the query raised (all recorded queries are inside the documented domain)
     [] OTHER              -> {"UnknownEvent"}
 
 (* automaton transitions <<sig, d>> exercised by an image event *)
